@@ -26,6 +26,7 @@ EXPLANATION = (
     ' Each Flavour instance must own its opcode and mnemonic tables (no aliasing of a shared container that is then updated). C01.R: every value an encoder accepts is representable in the field it is written to (the guard/sink obligations of C16).'
     ' C01.F accepts every list form of cstructs ([h] + [...], [h, *...]) and a kept header only when every writer of _app_id / _netqasm_version drops it.'
     ' The chunking of deserialize_subroutine is evaluated for lengths of 0, 1, 3 and 10 commands (every chunk must be data[k*7:(k+1)*7]).'
+    ' C01.F executes deserialize_subroutine as a whole on byte strings of 0, 1, 3 and 10 commands with ragged tails of 0, 1 and 6 bytes: chunk contents and order, refusal of a ragged tail, the fields of the Subroutine built.'
 )
 ASSUMPTIONS = [
     "operands are inside their encodable ranges (that is C16)",
